@@ -712,6 +712,23 @@ where
             g(guarded(|| Value::Array(advanced().step_by(2).map(to_val).collect()))),
         );
         o.insert("skip1_count".into(), g(guarded(|| json!(advanced().skip(1).count()))));
+        // nth with counts at the top of the usize range (what `skip(usize::MAX)` or a wrapped subtraction passes down), then next()
+        o.insert(
+            "nth_huge".into(),
+            g(guarded(|| {
+                Value::Array(
+                    [usize::MAX, usize::MAX - 1, usize::MAX - 2, usize::MAX / 2 + 1]
+                        .iter()
+                        .map(|&c| {
+                            let mut it = advanced();
+                            let a = it.nth(c).map(to_val).unwrap_or(Value::Null);
+                            let b = it.next().map(to_val).unwrap_or(Value::Null);
+                            json!([a, b])
+                        })
+                        .collect(),
+                )
+            })),
+        );
         o.insert(
             "size_hint".into(),
             g(guarded(|| {
@@ -753,6 +770,38 @@ fn op_array(req: &Value) -> Value {
 
     out.insert("dimensions".into(), g(guarded(|| array.dimensions())));
     out.insert("elements".into(), g(guarded(|| array.elements())));
+
+    // "light": only get() and sum() - for arrays with millions of elements
+    if req["light"].as_bool().unwrap_or(false) {
+        if let Some(queries) = req["get"].as_array() {
+            let res: Vec<Value> = queries
+                .iter()
+                .map(|q| {
+                    let idx = usizes(q);
+                    g(guarded(|| opt_f(array.get(&idx))))
+                })
+                .collect();
+            out.insert("get".into(), Value::Array(res));
+        }
+        let mut sums = Vec::new();
+        for a in 0..d {
+            let r = guarded(|| {
+                let s = array.sum(Axis(a));
+                // a digest instead of millions of numbers: length, plain sum and position-weighted sum of the entries (exact in i128)
+                let (mut t0, mut t1) = (0i128, 0i128);
+                for (i, x) in s.as_slice().iter().enumerate() {
+                    t0 += *x as i128;
+                    t1 += (*x as i128) * ((i % 1_000_003) as i128 + 1);
+                }
+                json!({"shape": s.shape().0.clone(), "len": s.as_slice().len(), "t0": t0.to_string(), "t1": t1.to_string(),
+                       "head": s.as_slice().iter().take(8).map(|x| *x as i64).collect::<Vec<_>>(),
+                       "tail": s.as_slice().iter().rev().take(8).map(|x| *x as i64).collect::<Vec<_>>()})
+            });
+            sums.push(json!({"axis": a, "r": g(r)}));
+        }
+        out.insert("sum_digest".into(), Value::Array(sums));
+        return Value::Object(out);
+    }
 
     // iter_indices: (len before each next, item) ... continued past exhaustion.
     out.insert(
